@@ -57,6 +57,9 @@ def run_impl(LUmod, A):
         except ValueError: two = 'raised'
         return {'raised': True, 'two': two, 'msg': str(e)}
     L2, U2 = LUmod.quaternion_lu(An.copy())
+    import quaternion
+    if not all(np.all(np.isfinite(quaternion.as_float_array(x))) for x in (L, U, P, L2, U2)):
+        return {'raised': False, 'nonfinite': True}
     return {'raised': False, 'L': qx.from_np(L), 'U': qx.from_np(U), 'P': qx.from_np(P), 'L2': qx.from_np(L2), 'U2': qx.from_np(U2)}
 
 def check_outputs(ctx, A, r, cls, viol):
@@ -159,6 +162,8 @@ def run(ctx):
         try: r = run_impl(LUmod, A)
         except Exception as e:
             viol('C07:crash', f'quaternion_lu raised {type(e).__name__}: {e}', A); continue
+        if r.get('nonfinite'):
+            viol('C07:nonfinite', f'quaternion_lu returned NaN/inf factors instead of raising or reproducing A ({cls})', A); continue
         rows = check_outputs(ctx, A, r, cls, viol)
         if rows is not None: perms_seen.add((m, tuple(rows)))
         nontriv = (not r['raised'] and rows is not None and rows != list(range(m))) or r['raised'] or cls.startswith('forced')
